@@ -553,7 +553,9 @@ class SourceFinder(object):
         # mask of pixles that are above the outerclip
         a = snr >= outerclip
         # segmentation a la scipy
-        l, n = label(a)
+        # diagonal pixels are part of the same group (as in find_islands),
+        # otherwise two equal valued diagonal peak pixels are two summits
+        l, n = label(a, structure=np.ones((3, 3)))
         f = find_objects(l)
 
         if n == 0:
